@@ -152,8 +152,11 @@ def run_history(ctx, e, rng, nsteps, on_step=None, conc=False, churn=False, hsm=
     case = dharness.DWorld(e, rng, churn=churn, hsm=hsm)
     db = case.w.db
     case.precompleted = set(r.id for r in db.ArchiveFileCopyRequest.select().where(db.ArchiveFileCopyRequest.completed == 1))
-    case.set_tools(rng.choice(["rsync-only", "both", "none"]), "ok")
+    tool_mode = rng.choice(["ok", "ok", "ok", "ok", "fail-src", "partial", "hang"])
+    case.set_tools(rng.choice(["rsync-only", "both", "none"]), tool_mode)
+    e.config.config["daemon"]["pull_timeout_base"] = 0.25 if tool_mode == "hang" else 300
     p7, p8, log = [], [], []
+    log.append(f"transfer tools installed: {os.path.basename(os.environ['PATH'])}, behaving: {tool_mode}")
     completed_seen = set()
 
     def judge(host, bt, bc, desc):
